@@ -206,3 +206,34 @@ package server
 //@ loop 1 invariant forall i int :: 0 <= i && i < len(elems) ==> elems[i] != nil && ((elems[i].MessageWithID.(type *queue.Publish) && elems[i].MessageWithID.(*queue.Publish) != nil && elems[i].MessageWithID.(*queue.Publish).Message != nil) || (elems[i].MessageWithID.(type *queue.Pubrel) && elems[i].MessageWithID.(*queue.Pubrel) != nil))
 //@ call client.write#1 assert [C03] locked(client.pl, id) && packets.(type *packets.Publish) && packets.(*packets.Publish).Dup && packets.(*packets.Publish).PacketID == id
 //@ call client.write#2 assert [C03] locked(client.pl, id) && packets.(type *packets.Pubrel) && packets.(*packets.Pubrel).PacketID == id
+
+// C03 — acknowledgements of outbound QoS 1/2 messages. PUBACK / PUBCOMP: the entry with that identifier leaves the
+// session queue and the identifier is free again. PUBREC: with a failure reason code (v5) the delivery is over — the
+// entry is removed and the identifier freed; otherwise the entry becomes a PUBREL entry with the same identifier,
+// exactly one PUBREL with that identifier is sent, and the identifier stays in use.
+//@ func (*client).pubackHandler
+//@ props C03
+//@ let Q = client.queueStore
+//@ requires [C03] client != nil && puback != nil && client.queueStore != nil && client.opts != nil && limFixed(client.pl)
+//@ modifies client.pl.used, client.pl.freePid, client.pl.exit, elems(client.pl.lockedPid.vals), ghost(Q.$removes), ghost(Q.$lastRemoved)
+//@ ensures [C03] Q.$removes == old(Q.$removes) + 1 && Q.$lastRemoved == puback.PacketID
+//@ ensures [C03] called(packetIDLimiter.release#1) == 1 ==> !locked(client.pl, puback.PacketID)
+//@ ensures [C03] result != nil ==> called(packetIDLimiter.release#1) == 0
+
+//@ func (*client).pubcompHandler
+//@ props C03
+//@ let Q = client.queueStore
+//@ requires [C03] client != nil && pubcomp != nil && client.queueStore != nil && limFixed(client.pl)
+//@ modifies client.err, client.pl.used, client.pl.freePid, client.pl.exit, elems(client.pl.lockedPid.vals), ghost(Q.$removes), ghost(Q.$lastRemoved), ghost(client.$nout), ghost(client.$lastOut)
+//@ ensures [C03] Q.$removes == old(Q.$removes) + 1 && Q.$lastRemoved == pubcomp.PacketID && !locked(client.pl, pubcomp.PacketID)
+
+//@ func (*client).pubrecHandler
+//@ props C03
+//@ let Q = client.queueStore
+//@ requires [C03] client != nil && pubrec != nil && client.queueStore != nil && limFixed(client.pl)
+//@ modifies heap, ghost(Q.$removes), ghost(Q.$lastRemoved), ghost(Q.$replaces), ghost(Q.$lastReplaced), ghost(client.$nout), ghost(client.$lastOut)
+//@ preserves all(client.* - err), all(packets.Pubrec.*)
+//@ ensures [C03] client.version == 5 && pubrec.Code >= 128 ==> Q.$removes == old(Q.$removes) + 1 && Q.$lastRemoved == pubrec.PacketID && !locked(client.pl, pubrec.PacketID) && Q.$replaces == old(Q.$replaces)
+//@ ensures [C03] !(client.version == 5 && pubrec.Code >= 128) ==> Q.$removes == old(Q.$removes) && Q.$replaces == old(Q.$replaces) + 1 && Q.$lastReplaced.MessageWithID.(type *queue.Pubrel) && Q.$lastReplaced.MessageWithID.(*queue.Pubrel).PacketID == pubrec.PacketID
+// (if the store fails to replace the entry the connection is being closed with an error: setError may send a DISCONNECT)
+//@ ensures [C03] !(client.version == 5 && pubrec.Code >= 128) && called(client.setError#2) == 0 ==> client.$nout == old(client.$nout) || (client.$nout == old(client.$nout) + 1 && client.$lastOut.(type *packets.Pubrel) && client.$lastOut.(*packets.Pubrel).PacketID == pubrec.PacketID)
